@@ -394,15 +394,16 @@ type c04OutBlock struct {
 }
 
 type c04Witness struct {
-	Case     *c04Case      `json:"case,omitempty"`
-	Mode     string        `json:"mode"`
-	Detail   string        `json:"detail"`
-	Key      string        `json:"key,omitempty"`
-	Expected []tfPt        `json:"expected_first,omitempty"`
-	Got      []tfPt        `json:"got,omitempty"`
-	Outputs  []c04OutBlock `json:"output_blocks,omitempty"`
-	Err      string        `json:"err,omitempty"`
-	Snapshot any           `json:"snapshot_writes,omitempty"`
+	Case      *c04Case      `json:"case,omitempty"`
+	Mode      string        `json:"mode"`
+	Detail    string        `json:"detail"`
+	Key       string        `json:"key,omitempty"`
+	Expected  []tfPt        `json:"expected_first,omitempty"`
+	Got       []tfPt        `json:"got,omitempty"`
+	Outputs   []c04OutBlock `json:"output_blocks,omitempty"`
+	Err       string        `json:"err,omitempty"`
+	Snapshot  any           `json:"snapshot_writes,omitempty"`
+	Minimised any           `json:"minimised,omitempty"`
 }
 
 // c04ReadOutputs opens the compactor's output files with TSMReader and returns every block
@@ -457,14 +458,14 @@ func c04ReadOutputs(files []string) (blocks []c04OutBlock, keyOrder [][]string, 
 type c04Reporter func(class string, feat map[string]string, w c04Witness)
 
 // c04CheckOutputs applies the structural scan and the content comparison.
-func c04CheckOutputs(r *vkit.Run, mode string, ppb int, model map[string]map[int64]map[string]bool, files []string, report c04Reporter) {
+func c04CheckOutputs(ev func(string, int64), mode string, ppb int, model map[string]map[int64]map[string]bool, files []string, report c04Reporter) {
 	blocks, keyOrder, readAll, err := c04ReadOutputs(files)
 	if err != nil {
 		report("output_unreadable", nil, c04Witness{Detail: "an output file cannot be read back", Err: err.Error()})
 		return
 	}
-	r.Event("output_files_"+mode, int64(len(files)))
-	r.Event("output_blocks_"+mode, int64(len(blocks)))
+	ev("output_files_"+mode, int64(len(files)))
+	ev("output_blocks_"+mode, int64(len(blocks)))
 	// keys sorted inside each file; non-decreasing across files
 	last := ""
 	for fi, order := range keyOrder {
@@ -495,7 +496,7 @@ func c04CheckOutputs(r *vkit.Run, mode string, ppb int, model map[string]map[int
 		bs := perKey[k]
 		var got []tfPt
 		for i, b := range bs {
-			r.Event("blocks_scanned", 1)
+			ev("blocks_scanned", 1)
 			if b.Count > ppb {
 				report("block_exceeds_points_per_block", nil, c04Witness{Key: k, Detail: fmt.Sprintf("block %d of %q holds %d points, requested at most %d", i, k, b.Count, ppb), Outputs: bs})
 			}
@@ -525,12 +526,12 @@ func c04CheckOutputs(r *vkit.Run, mode string, ppb int, model map[string]map[int
 			name string
 			pts  []tfPt
 		}{{"blocks", got}, {"ReadAll", readAll[k]}} {
-			r.Event("keys_compared_"+src.name, 1)
+			ev("keys_compared_"+src.name, 1)
 			if class, detail, exp := c04Diff(model[k], src.pts); class != "" {
 				report(class, map[string]string{"read_via": src.name}, c04Witness{Key: k, Detail: detail, Expected: tfTrimPts(exp, 40), Got: tfTrimPts(src.pts, 40), Outputs: bs})
 				break
 			}
-			r.Event("points_compared", int64(len(src.pts)))
+			ev("points_compared", int64(len(src.pts)))
 		}
 	}
 	for k, want := range model {
@@ -687,139 +688,364 @@ func c04Snapshot(r *vkit.Run, rg *vkit.Rand, caseNo int, base string, ctr *uint6
 	if big {
 		r.Event("snapshot_runs_with_key_over_1000_points", 1)
 	}
-	c04CheckOutputs(r, "snapshot", tsdb.DefaultMaxPointsPerBlock, model, files, rep)
+	c04CheckOutputs(r.Event, "snapshot", tsdb.DefaultMaxPointsPerBlock, model, files, rep)
 	if r.WantSample() && caseNo%50 == 3 {
 		r.Sample(map[string]any{"case": caseNo, "mode": "snapshot", "writes": writes, "output_files": len(files)})
 	}
 }
 
+type c04Mis struct {
+	class string
+	feat  map[string]string
+	w     c04Witness
+}
+
+// c04KeyLabels describes the failing key's input blocks for the violation's features: how many
+// blocks the compactor has to order, and whether "overlaps in time" is not transitive on them
+// (a overlaps b, b overlaps c, a entirely before c). Labels only; they decide nothing.
+func c04KeyLabels(c *c04Case, key string) map[string]string {
+	type iv struct{ lo, hi int64 }
+	var ivs []iv
+	for _, f := range c.Files {
+		for _, k := range f.Keys {
+			if k.Key == key {
+				for _, b := range k.Blocks {
+					ivs = append(ivs, iv{b.Pts[0].T, b.Pts[len(b.Pts)-1].T})
+				}
+			}
+		}
+	}
+	ov := func(a, b iv) bool { return a.lo <= b.hi && b.lo <= a.hi }
+	nontrans := false
+	for _, a := range ivs {
+		for _, b := range ivs {
+			if !ov(a, b) {
+				continue
+			}
+			for _, cc := range ivs {
+				if ov(b, cc) && !ov(a, cc) {
+					nontrans = true
+				}
+			}
+		}
+	}
+	nb := "le20"
+	if len(ivs) > 20 {
+		nb = "gt20"
+	}
+	return map[string]string{"key_blocks": nb, "overlap_not_transitive": fmt.Sprint(nontrans)}
+}
+
+// c04Execute writes the case's input files, opens a real FileStore and Compactor over them,
+// runs the given compaction modes and returns every disagreement with the model.
+func c04Execute(ev func(string, int64), base string, c *c04Case, modes []string) (out []c04Mis, setupErr error) {
+	if ev == nil {
+		ev = func(string, int64) {}
+	}
+	model := c04Model(c)
+	dir, err := os.MkdirTemp(base, "c")
+	if err != nil {
+		return nil, err
+	}
+	defer os.RemoveAll(dir)
+	var names []string
+	for fi := range c.Files {
+		f := &c.Files[fi]
+		path := tfFileName(dir, fi+1, 1+fi%2)
+		f.Name = path[len(dir)+1:]
+		var kbs []tfKeyBlocks
+		for _, k := range f.Keys {
+			kbs = append(kbs, tfKeyBlocks{Key: k.Key, Typ: c.types[k.Key], Blocks: k.vals})
+		}
+		if err := tfWriteTSM(path, kbs); err != nil {
+			return nil, err
+		}
+		if err := tfWriteTombstones(path, f.Tombs, fi%2 == 0); err != nil {
+			return nil, err
+		}
+		if len(f.Tombs) > 0 {
+			ev("input_files_with_tombstones", 1)
+		}
+		names = append(names, path)
+	}
+	fs, err := tfOpenFileStore(dir)
+	if err != nil {
+		return nil, err
+	}
+	defer fs.Close()
+	comp := tsm1.NewCompactor()
+	comp.Dir = dir
+	comp.FileStore = fs
+	comp.Open()
+	defer comp.Close()
+	for _, mode := range modes {
+		var files []string
+		var err error
+		if mode == "full" {
+			files, err = comp.CompactFull(names, zap.NewNop(), c.PPB)
+		} else {
+			files, err = comp.CompactFast(names, zap.NewNop(), c.PPB)
+		}
+		report := func(class string, extra map[string]string, w c04Witness) {
+			w.Case, w.Mode = c, mode
+			feat := map[string]string{"mode": mode, "ppb": fmt.Sprint(c.PPB)}
+			for k, v := range extra {
+				feat[k] = v
+			}
+			if w.Key != "" {
+				for k, v := range c04KeyLabels(c, w.Key) {
+					feat[k] = v
+				}
+			}
+			out = append(out, c04Mis{class, feat, w})
+		}
+		ev("compactions_"+mode, 1)
+		if err != nil {
+			report("compaction_error", nil, c04Witness{Detail: "the compactor returned an error", Err: err.Error()})
+		} else {
+			c04CheckOutputs(ev, mode, c.PPB, model, files, report)
+		}
+		for _, f := range files {
+			os.Remove(f)
+		}
+	}
+	return out, nil
+}
+
+func c04Clone(c *c04Case) *c04Case {
+	n := &c04Case{PPB: c.PPB, Types: c.Types, types: c.types, Off: c.Off, Step: c.Step, Slots: c.Slots}
+	for _, f := range c.Files {
+		nf := c04File{Tombs: append([]tfTomb(nil), f.Tombs...)}
+		for _, k := range f.Keys {
+			nk := c04FileKey{Key: k.Key}
+			for bi, b := range k.Blocks {
+				nk.Blocks = append(nk.Blocks, c04Block{Pts: append([]tfPt(nil), b.Pts...)})
+				nk.vals = append(nk.vals, append([]tsm1.Value(nil), k.vals[bi]...))
+			}
+			nf.Keys = append(nf.Keys, nk)
+		}
+		n.Files = append(n.Files, nf)
+	}
+	return n
+}
+
+// c04Minimise: greedy deletion of keys, files, tombstones, blocks and points that keeps a
+// violation of the same class (same mode) alive (BUILDING rule 7).
+func c04Minimise(base string, c *c04Case, mode, class string) (*c04Case, *c04Mis) {
+	still := func(cand *c04Case) *c04Mis {
+		for _, f := range cand.Files {
+			if len(f.Keys) == 0 {
+				return nil
+			}
+		}
+		if len(cand.Files) < 1 {
+			return nil
+		}
+		ms, err := c04Execute(nil, base, cand, []string{mode})
+		if err != nil {
+			return nil
+		}
+		for i := range ms {
+			if ms[i].class == class {
+				return &ms[i]
+			}
+		}
+		return nil
+	}
+	cur := c04Clone(c)
+	best := still(cur)
+	if best == nil {
+		return nil, nil
+	}
+	budget := 1500
+	try := func(cand *c04Case) bool {
+		if budget <= 0 {
+			return false
+		}
+		budget--
+		if m := still(cand); m != nil {
+			cur, best = cand, m
+			return true
+		}
+		return false
+	}
+	for changed := true; changed && budget > 0; {
+		changed = false
+		// drop every key but the failing one
+		for _, k := range cur.Files[0].Keys {
+			_ = k
+		}
+		if best.w.Key != "" {
+			cand := c04Clone(cur)
+			removed := false
+			for fi := range cand.Files {
+				var ks []c04FileKey
+				for _, k := range cand.Files[fi].Keys {
+					if k.Key == best.w.Key {
+						ks = append(ks, k)
+					} else {
+						removed = true
+					}
+				}
+				cand.Files[fi].Keys = ks
+			}
+			var fl []c04File
+			for _, f := range cand.Files {
+				if len(f.Keys) > 0 {
+					fl = append(fl, f)
+				}
+			}
+			cand.Files = fl
+			if removed && try(cand) {
+				changed = true
+			}
+		}
+		for i := 0; i < len(cur.Files) && len(cur.Files) > 1; i++ { // drop a file
+			cand := c04Clone(cur)
+			cand.Files = append(cand.Files[:i], cand.Files[i+1:]...)
+			if try(cand) {
+				changed = true
+				i--
+			}
+		}
+		for i := 0; i < len(cur.Files); i++ { // drop a tombstone
+			for j := 0; j < len(cur.Files[i].Tombs); j++ {
+				cand := c04Clone(cur)
+				cand.Files[i].Tombs = append(cand.Files[i].Tombs[:j], cand.Files[i].Tombs[j+1:]...)
+				if try(cand) {
+					changed = true
+					j--
+				}
+			}
+		}
+		for i := 0; i < len(cur.Files); i++ { // drop a block
+			for ki := 0; ki < len(cur.Files[i].Keys); ki++ {
+				for j := 0; j < len(cur.Files[i].Keys[ki].Blocks) && len(cur.Files[i].Keys[ki].Blocks) > 1; j++ {
+					cand := c04Clone(cur)
+					k := &cand.Files[i].Keys[ki]
+					k.Blocks = append(k.Blocks[:j], k.Blocks[j+1:]...)
+					k.vals = append(k.vals[:j], k.vals[j+1:]...)
+					if try(cand) {
+						changed = true
+						j--
+					}
+				}
+			}
+		}
+		for i := 0; i < len(cur.Files); i++ { // drop a point
+			for ki := 0; ki < len(cur.Files[i].Keys); ki++ {
+				for j := 0; j < len(cur.Files[i].Keys[ki].Blocks); j++ {
+					for p := 0; p < len(cur.Files[i].Keys[ki].Blocks[j].Pts) && len(cur.Files[i].Keys[ki].Blocks[j].Pts) > 1; p++ {
+						if len(cur.Files[i].Keys[ki].Blocks[j].Pts) > 12 {
+							break // large blocks are not minimised point by point
+						}
+						cand := c04Clone(cur)
+						k := &cand.Files[i].Keys[ki]
+						k.Blocks[j].Pts = append(k.Blocks[j].Pts[:p], k.Blocks[j].Pts[p+1:]...)
+						k.vals[j] = append(k.vals[j][:p], k.vals[j][p+1:]...)
+						if try(cand) {
+							changed = true
+							p--
+						}
+					}
+				}
+			}
+		}
+	}
+	return cur, best
+}
+
+func c04Nontrivial(c *c04Case) bool {
+	for _, f := range c.Files {
+		for _, k := range f.Keys {
+			for _, b := range k.Blocks {
+				for _, p := range b.Pts {
+					for _, tb := range f.Tombs {
+						if tb.covers(k.Key, p.T) {
+							return true
+						}
+					}
+				}
+			}
+		}
+	}
+	for a := 0; a < len(c.Files); a++ {
+		for b := a + 1; b < len(c.Files); b++ {
+			for _, ka := range c.Files[a].Keys {
+				for _, kb := range c.Files[b].Keys {
+					if ka.Key != kb.Key {
+						continue
+					}
+					la, lb := ka.Blocks[len(ka.Blocks)-1].Pts, kb.Blocks[len(kb.Blocks)-1].Pts
+					amin, amax := ka.Blocks[0].Pts[0].T, la[len(la)-1].T
+					bmin, bmax := kb.Blocks[0].Pts[0].T, lb[len(lb)-1].T
+					if amin <= bmax && bmin <= amax {
+						return true
+					}
+				}
+			}
+		}
+	}
+	return false
+}
+
 func TestC04(t *testing.T) {
 	r := vkit.Start(t, "C04", "exploration")
 	defer r.Finish()
-	r.Rule("case = 2–6 real TSM files over 1–5 keys (each key one of five value types), per key and file 1–4 blocks of 1..ppb points on a small timestamp grid, a block often copied (same timestamps) from an earlier file, half of the files with 1–3 tombstone entries (full key, exactly a block, all of a key, one point, a range cutting blocks), ppb ∈ {1,2,3,7,1000}; each case is compacted with CompactFull and CompactFast; every third case additionally writes a generated Cache (1–4 unsorted batches per key with duplicates, a quarter with one key of 1000–2500 points) with WriteSnapshot; non-trivial = at least two input files hold the same key with overlapping time ranges, or a tombstone covers a point; distinct = hash of (ppb, grid, files, blocks, tombstones)")
+	r.Rule("case = 2–6 real TSM files over 1–5 keys (each key one of five value types), per key and file 1–4 (or more, around a copied block) consecutive blocks of 1..ppb points on a small timestamp grid, a block often copied (same timestamps, new values) from an earlier file, half of the files with 1–3 tombstone entries (full key, exactly a block, all of a key, one point, a range cutting blocks), ppb ∈ {1,2,3,7,1000}; each case is compacted with CompactFull and CompactFast; every third case additionally writes a generated Cache (1–4 unsorted batches per key with duplicates, a quarter with one key of 1000–2500 points) with WriteSnapshot; non-trivial = at least two input files hold the same key with overlapping time ranges, or a tombstone covers a point; distinct = hash of (ppb, grid, files, blocks, tombstones)")
 	r.Assume("a tombstone hides points of the TSM file it is stored with only",
 		"input files are passed to the compactor in generation order; later = higher generation",
 		"blocks of one key do not overlap inside one input file (a file with such blocks is not a valid TSM file: the index keeps a key's entries ordered by start time and derives the key's time range from the first and last entry); overlap and duplication are across files")
-	n := r.N(400, 20000)
+	n := r.N(400, 10000)
 	base, err := tfScratch("c04-")
 	if err != nil {
 		t.Fatal(err)
 	}
 	defer os.RemoveAll(base)
 	var ctr uint64
+	minimised := map[string]int{}
 	for i := 0; i < n; i++ {
 		rg := r.Rand(i)
 		c := c04Gen(rg, i, &ctr)
-		model := c04Model(c)
-		// non-triviality
-		nt := false
+		nt := c04Nontrivial(c)
+		r.Case(c.canonical(), nt)
+		maxBlocks := 0
+		perKey := map[string]int{}
 		for _, f := range c.Files {
 			for _, k := range f.Keys {
-				for _, b := range k.Blocks {
-					for _, p := range b.Pts {
-						for _, tb := range f.Tombs {
-							if tb.covers(k.Key, p.T) {
-								nt = true
-							}
-						}
-					}
+				perKey[k.Key] += len(k.Blocks)
+				if perKey[k.Key] > maxBlocks {
+					maxBlocks = perKey[k.Key]
 				}
 			}
 		}
-		for a := 0; a < len(c.Files) && !nt; a++ {
-			for b := a + 1; b < len(c.Files) && !nt; b++ {
-				for _, ka := range c.Files[a].Keys {
-					for _, kb := range c.Files[b].Keys {
-						if ka.Key != kb.Key {
-							continue
-						}
-						amin, amax := ka.Blocks[0].Pts[0].T, ka.Blocks[len(ka.Blocks)-1].Pts[len(ka.Blocks[len(ka.Blocks)-1].Pts)-1].T
-						bmin, bmax := kb.Blocks[0].Pts[0].T, kb.Blocks[len(kb.Blocks)-1].Pts[len(kb.Blocks[len(kb.Blocks)-1].Pts)-1].T
-						if amin <= bmax && bmin <= amax {
-							nt = true
-						}
-					}
-				}
-			}
+		if maxBlocks > 20 {
+			r.Event("cases_with_a_key_of_more_than_20_input_blocks", 1)
 		}
-		r.Case(c.canonical(), nt)
-		if c.InfileOverlap {
-			r.Event("cases_with_overlap_inside_a_file", 1)
-		}
-		dir, err := os.MkdirTemp(base, "c")
+		ms, err := c04Execute(r.Event, base, c, []string{"full", "fast"})
 		if err != nil {
-			t.Fatal(err)
-		}
-		var names []string
-		setupErr := error(nil)
-		for fi := range c.Files {
-			f := &c.Files[fi]
-			path := tfFileName(dir, fi+1, 1+fi%2)
-			f.Name = path[len(dir)+1:]
-			var kbs []tfKeyBlocks
-			for _, k := range f.Keys {
-				kbs = append(kbs, tfKeyBlocks{Key: k.Key, Typ: c.types[k.Key], Blocks: k.vals})
-			}
-			if setupErr = tfWriteTSM(path, kbs); setupErr != nil {
-				break
-			}
-			if setupErr = tfWriteTombstones(path, f.Tombs, fi%2 == 0); setupErr != nil {
-				break
-			}
-			if len(f.Tombs) > 0 {
-				r.Event("input_files_with_tombstones", 1)
-			}
-			names = append(names, path)
-		}
-		var fs *tsm1.FileStore
-		if setupErr == nil {
-			fs, setupErr = tfOpenFileStore(dir)
-		}
-		if setupErr != nil {
-			r.Violation("setup_failed", map[string]string{"step": "write_inputs"}, map[string]any{"case": c, "err": setupErr.Error()})
-			os.RemoveAll(dir)
+			r.Violation("setup_failed", map[string]string{"step": "write_inputs"}, map[string]any{"case": c, "err": err.Error()})
 			continue
 		}
 		if nt && r.WantSample() && i%11 == 0 {
 			r.Sample(map[string]any{"case": i, "mode": "full+fast", "inputs": c})
 		}
-		comp := tsm1.NewCompactor()
-		comp.Dir = dir
-		comp.FileStore = fs
-		comp.Open()
-		for _, mode := range []string{"full", "fast"} {
-			var files []string
-			var err error
-			if mode == "full" {
-				files, err = comp.CompactFull(names, zap.NewNop(), c.PPB)
-			} else {
-				files, err = comp.CompactFast(names, zap.NewNop(), c.PPB)
+		seen := map[string]bool{}
+		for _, m := range ms {
+			r.Event("mismatch_"+m.class+"_"+m.feat["mode"], 1)
+			k := m.class + "/" + m.feat["mode"]
+			if seen[k] {
+				continue // one witness per (case, class, mode)
 			}
-			feat := func(extra map[string]string) map[string]string {
-				m := map[string]string{"mode": mode, "ppb": fmt.Sprint(c.PPB), "infile_overlap": fmt.Sprint(c.InfileOverlap)}
-				for k, v := range extra {
-					m[k] = v
+			seen[k] = true
+			if minimised[k] < 2 {
+				minimised[k]++
+				if mc, mm := c04Minimise(base, c, m.feat["mode"], m.class); mc != nil {
+					m.w.Minimised = map[string]any{"case": mc, "detail": mm.w.Detail, "key": mm.w.Key, "expected": mm.w.Expected, "got": mm.w.Got, "output_blocks": mm.w.Outputs}
 				}
-				return m
 			}
-			report := func(class string, extra map[string]string, w c04Witness) {
-				w.Case, w.Mode = c, mode
-				r.Event("mismatch_"+class+"_"+mode, 1)
-				r.Violation(class, feat(extra), w)
-			}
-			r.Event("compactions_"+mode, 1)
-			if err != nil {
-				report("compaction_error", nil, c04Witness{Detail: "the compactor returned an error", Err: err.Error()})
-			} else {
-				c04CheckOutputs(r, mode, c.PPB, model, files, report)
-			}
-			for _, f := range files {
-				os.Remove(f)
-			}
+			r.Violation(m.class, m.feat, m.w)
 		}
-		comp.Close()
-		fs.Close()
-		os.RemoveAll(dir)
 
 		if i%3 == 0 {
 			c04Snapshot(r, r.SubRand("snapshot", i), i, base, &ctr, func(class string, extra map[string]string, w c04Witness) {
